@@ -54,3 +54,124 @@ def r_C26eval(root):
     ob("C26", "C26.g", RG, "clear_generator_registrations", "registry unset after clear", ok)
     if not ok: out.append(Finding("C26", "C26.g", RG, "clear_generator_registrations", "generators after clear: %s" % (sorted(e.get("generators")) if isinstance(e.get("generators"), dict) else e.get("generators")), "after clear_generator_registrations the registry still holds entries: generators registered at run time survive the clear and a re-registration is refused as duplicate", witness="register_generator_with_project(...), clear, register again"))
     return inst, out
+
+def r_C26state(root):
+    """C26.h  the registry module as a state machine, decided by evaluation (sa/pyeval.py): every function of
+    textx/registration.py is interpreted over ONE shared module state (languages / generators / metamodels and whatever
+    other module-level variables the file has), with stand-ins for the entry-point scan, the descriptor classes and the
+    meta-model factory.  Sequences of API calls are run and the documented outcome is compared:
+       names are case-insensitive everywhere; duplicates are refused; entry points are discovered lazily and again after a
+       clear; a clear forgets every programmatic registration (and the cached meta-models); a meta-model is built once and
+       cached, built again whenever keyword arguments are given (whatever their values), an instance is used as it is;
+       file lookup: exactly one matching language, else TextXRegistrationError."""
+    out = []; inst = 0
+    t = load(root, RG)
+    fns = {f.name: f for f in t.body if isinstance(f, ast.FunctionDef)}
+    need = ("register_language", "language_description", "clear_language_registrations", "register_generator", "generator_description", "clear_generator_registrations", "metamodel_for_language", "language_for_file", "metamodel_for_file")
+    miss = [n for n in need if n not in fns]
+    if miss: raise AnalysisError("registration.py: API functions %s not found" % miss)
+    def LD(name=None, pattern=None, description="", metamodel=None): return {".kind": "langdesc", ".name": name, ".pattern": pattern, ".description": description, ".metamodel": metamodel, ".project_name": None, ".project_version": None}
+    def GD(language=None, target=None, description="", generator=None, custom_args=None): return {".kind": "gendesc", ".language": language, ".target": target, ".description": description, ".generator": generator, ".custom_args": custom_args, ".project_name": None, ".project_version": None}
+    class World:
+        def __init__(w):
+            w.scans = []; w.built = []
+            w.ep_lang = LD("EntryLang", "*.el", metamodel=w.factory("EntryLang"))
+            w.ep_gens = [GD("any", "dot", generator="any-dot"), GD("EntryLang", "T", generator="entry-t")]
+            w.G = {}
+            for st in t.body:            # every module-level variable of the file, as the file initialises it
+                if isinstance(st, (ast.Assign, ast.AnnAssign)) and st.value is not None:
+                    for tg in (st.targets if isinstance(st, ast.Assign) else [st.target]):
+                        if isinstance(tg, ast.Name):
+                            try: w.G[tg.id] = pyeval.evaluate(st.value, {})
+                            except (pyeval.Unsupported, pyeval.Raised): pass
+            for g_ in ("languages", "generators", "metamodels"):
+                if g_ not in w.G: raise AnalysisError("registration.py: module-level registry %r not found" % g_)
+        def factory(w, tag):
+            def make(**kw):
+                mm = {".kind": "mm", ".tag": tag, ".kw": dict(kw), ".n": len(w.built)}; w.built.append(mm); return mm
+            return pyeval.PyFn(make)
+        def entry_points(w, group=None, **kw):
+            w.scans.append(group)
+            mk = lambda d: {".load": pyeval.PyFn(lambda d=d: d), ".dist": {".name": "proj", ".version": "1.0"}, ".name": "ep"}
+            return [mk(w.ep_lang)] if group == "textx_languages" else ([mk(g) for g in w.ep_gens] if group == "textx_generators" else [])
+        def call(w, name, *args, **kw):
+            fn = fns[name]; ps = [a.arg for a in fn.args.args]
+            env = {"__functions__": fns, "__globals__": w.G, "__global_names__": set(), "__module__": None,
+                   "entry_points": pyeval.PyFn(w.entry_points), "TextXMetaModel": pyeval.ClassRef("TextXMetaModel"), "TextXMetaMetaModel": pyeval.ClassRef("TextXMetaMetaModel"), "LanguageDesc": pyeval.PyFn(LD), "GeneratorDesc": pyeval.PyFn(GD), "TYPE_CHECKING": False,
+                   "fnmatch": {".fnmatch": pyeval.PyFn(fnmatch.fnmatch)}, "fnmatch.fnmatch": pyeval.PyFn(fnmatch.fnmatch),
+                   "__classes__": {"LanguageDesc": lambda v: isinstance(v, dict) and v.get(".kind") == "langdesc", "GeneratorDesc": lambda v: isinstance(v, dict) and v.get(".kind") == "gendesc",
+                                   "TextXMetaModel": lambda v: isinstance(v, dict) and v.get(".kind") == "mm", "TextXMetaMetaModel": lambda v: False}}
+            defaults = dict(zip(ps[len(ps) - len(fn.args.defaults):], fn.args.defaults))
+            for k_, d_ in defaults.items(): env[k_] = pyeval.evaluate(d_, {})
+            for p_, a_ in zip(ps, args): env[p_] = a_
+            extra = {}
+            for k_, v_ in kw.items():
+                if k_ in ps: env[k_] = v_
+                else: extra[k_] = v_
+            if fn.args.kwarg: env[fn.args.kwarg.arg] = extra
+            elif extra: raise AnalysisError("%s does not take %s" % (name, sorted(extra)))
+            try: return ("ret", pyeval.run_block(fn.body, env))
+            except pyeval.Raised as r_: return ("raise", r_.cls)
+            except pyeval.Unsupported as u_: raise AnalysisError("%s: outside the evaluated subset: %s" % (name, u_))
+    def rep(ok, fn_, what, msg, props_=("C26",), witness=""):
+        nonlocal inst
+        inst += 1
+        for pr in props_:
+            ob(pr, "C26.h", RG, fn_, what, ok)
+            if not ok: out.append(Finding(pr, "C26.h", RG, fn_, what, msg, witness=witness))
+    def is_err(r): return r[0] == "raise" and r[1] == "TextXRegistrationError"
+    def show(r): return "raises %s" % r[1] if r[0] == "raise" else ("returns %s" % (r[1].get(".name", r[1].get(".tag", r[1].get(".generator"))) if isinstance(r[1], dict) else r[1],))
+    # ---- languages: lazy discovery, case-insensitive names, duplicates, clear
+    w = World()
+    r = w.call("language_description", "entrylang")
+    rep(r[0] == "ret" and r[1] is w.ep_lang and w.ep_lang[".project_name"] == "proj" and w.scans.count("textx_languages") == 1, "language_description", "first use discovers the entry points", "the first lookup of a language provided by an entry point %s (scans of the entry-point group: %d, project name recorded: %r)" % (show(r), w.scans.count("textx_languages"), w.ep_lang[".project_name"]))
+    mine = LD("MyLang", "*.ml", metamodel=w.factory("MyLang"))
+    r0 = w.call("register_language", mine)
+    looks = [(q, w.call("language_description", q)) for q in ("mylang", "MYLANG", "MyLang")]
+    bad = [(q, r_) for q, r_ in looks if not (r_[0] == "ret" and r_[1] is mine)]
+    rep(r0[0] == "ret" and not bad, "register_language / language_description", "a registered language is found under any spelling of its name", "after registering the language 'MyLang' the lookup of %r %s: names are case-insensitive, registration and every lookup must normalise them the same way" % (bad[0][0] if bad else "MyLang", show(bad[0][1]) if bad else show(r0)), props_=("C26", "C30"), witness="register_language('MyLang', ...); language_description('mylang')")
+    sharp = LD("Ma\u00dfe\u03a3", "*.mas", metamodel=w.factory("sharp")); rs = w.call("register_language", sharp); ls = w.call("language_description", "Ma\u00dfe\u03a3")
+    rep(rs[0] == "ret" and ls[0] == "ret" and ls[1] is sharp, "register_language / language_description", "a language with a non-ASCII name is found under exactly that name", "after registering a language named 'Ma\u00dfe\u03a3' the lookup of the very same name %s: registration and lookup normalise names differently" % show(ls if rs[0] == "ret" else rs))
+    r = w.call("register_language", "MYLANG", "*.zz")
+    rep(is_err(r), "register_language", "a second registration of the same name (other spelling) is refused", "registering 'MYLANG' after 'MyLang' %s; documented TextXRegistrationError (one language per case-insensitive name)" % show(r))
+    r = w.call("language_for_file", "x.ml")
+    rep(r[0] == "ret" and r[1] is mine, "language_for_file", "one matching language", "language_for_file('x.ml') with exactly one language for '*.ml' %s" % show(r))
+    w.call("register_language", LD("Other", "*.ml", metamodel=w.factory("Other")))
+    r = w.call("language_for_file", "x.ml"); r2 = w.call("language_for_file", "x.none")
+    rep(is_err(r) and is_err(r2), "language_for_file", "no or several matching languages are an error", "language_for_file with two matching languages %s, with none %s; both documented TextXRegistrationError" % (show(r), show(r2)))
+    # ---- registration as the very first use of the registry
+    w = World(); mine = LD("MyLang", "*.ml", metamodel=w.factory("MyLang"))
+    r0 = w.call("register_language", mine); r1 = w.call("language_description", "entrylang"); r2 = w.call("language_description", "mylang")
+    rep(r0[0] == "ret" and r1[0] == "ret" and r1[1] is w.ep_lang and r2[0] == "ret" and r2[1] is mine, "register_language", "registering into an unset registry discovers the entry points first", "register_language as the first use of the registry %s; afterwards the entry-point language %s and the registered one %s" % (show(r0), show(r1), show(r2)))
+    w = World(); gm = GD("MyLang", "T", generator="mine")
+    r0 = w.call("register_generator", gm); r1 = w.call("generator_description", "any", "dot"); r2 = w.call("generator_description", "mylang", "t")
+    rep(r0[0] == "ret" and r1[0] == "ret" and r1[1] is w.ep_gens[0] and r2[0] == "ret" and r2[1] is gm, "register_generator", "registering into an unset registry discovers the entry points first", "register_generator as the first use of the registry %s; afterwards the entry-point generator %s and the registered one %s" % (show(r0), show(r1), show(r2)))
+    # ---- meta-model cache
+    w = World(); mine = LD("MyLang", "*.ml", metamodel=w.factory("MyLang")); w.call("register_language", mine)
+    a = w.call("metamodel_for_language", "MyLang"); b = w.call("metamodel_for_language", "mylang")
+    rep(a[0] == "ret" and b[0] == "ret" and a[1] is b[1] and len(w.built) == 1, "metamodel_for_language", "the meta-model is built once and cached", "two requests for the meta-model of 'MyLang' (spelled 'MyLang' and 'mylang') build it %d time(s) and %s" % (len(w.built), "return different objects" if a[0] == b[0] == "ret" and a[1] is not b[1] else "%s / %s" % (show(a), show(b))), props_=("C26", "C30"))
+    c = w.call("metamodel_for_language", "MyLang", debug=True)
+    rep(c[0] == "ret" and len(w.built) == 2 and c[1] is w.built[-1] and c[1][".kw"] == {"debug": True}, "metamodel_for_language", "keyword arguments build a new meta-model with them", "a request with debug=True %s after %d build(s) with arguments %s: it must build a new meta-model with the given arguments" % (show(c), len(w.built), w.built[-1][".kw"] if w.built else None))
+    n0 = len(w.built); d = w.call("metamodel_for_file", "x.ml", classes=None)
+    rep(d[0] == "ret" and len(w.built) == n0 + 1 and d[1] is w.built[-1] and d[1][".kw"] == {"classes": None}, "metamodel_for_file", "keyword arguments count whatever their value", "metamodel_for_file('x.ml', classes=None) %s and builds %d new meta-model(s): given keyword arguments (also None-valued ones) ask for a fresh meta-model built with exactly them, not the cached one" % (show(d), len(w.built) - n0), witness="metamodel_for_file('x.ml', classes=None) after an earlier metamodel_for_language")
+    inst_mm = {".kind": "mm", ".tag": "ready-made instance"}; w.call("register_language", LD("InstLang", "*.il", metamodel=inst_mm))
+    e = w.call("metamodel_for_language", "InstLang"); e2 = w.call("metamodel_for_language", "instlang")
+    rep(e[0] == "ret" and e[1] is inst_mm and e2[0] == "ret" and e2[1] is inst_mm, "metamodel_for_language", "a meta-model instance given at registration is used as it is", "for a language registered with a ready-made meta-model instance under the name 'InstLang' the request %s / %s" % (show(e), show(e2)), props_=("C26", "C30"), witness="register_language('InstLang', metamodel=<instance>); metamodel_for_language('InstLang')")
+    r = w.call("clear_language_registrations")
+    f = w.call("language_description", "mylang"); g = w.call("language_description", "entrylang")
+    rep(is_err(f) and g[0] == "ret" and not w.G.get("metamodels"), "clear_language_registrations", "a clear forgets programmatic registrations and cached meta-models; entry points come back", "after clear_language_registrations the programmatic language %s, the entry-point language %s, cached meta-models: %s" % (show(f), show(g), sorted(w.G.get("metamodels") or {})))
+    # ---- generators
+    w = World()
+    r = w.call("generator_description", "entrylang", "t")
+    rep(r[0] == "ret" and r[1] is w.ep_gens[1] and w.scans.count("textx_generators") == 1, "generator_description", "first use discovers the entry points", "the first lookup of a generator provided by an entry point %s" % show(r))
+    gm = GD("Any", "Mine", generator="mine"); r0 = w.call("register_generator", gm)
+    looks = [((l_, t_), w.call("generator_description", l_, t_)) for l_, t_ in (("any", "mine"), ("ANY", "MINE"))]
+    bad = [(q, r_) for q, r_ in looks if not (r_[0] == "ret" and r_[1] is gm)]
+    rep(r0[0] == "ret" and not bad, "register_generator / generator_description", "a registered generator is found under any spelling", "after registering the generator Any->Mine the lookup %s %s" % (bad[0][0] if bad else "", show(bad[0][1]) if bad else show(r0)))
+    r = w.call("register_generator", "ANY", "MINE")
+    rep(is_err(r), "register_generator", "a second registration of the same language/target is refused", "registering ANY->MINE after Any->Mine %s; documented TextXRegistrationError" % show(r))
+    w.call("clear_generator_registrations")
+    h = w.call("generator_description", "any", "mine"); i = w.call("generator_description", "any", "dot"); j = w.call("register_generator", GD("any", "mine", generator="again"))
+    rep(is_err(h) and i[0] == "ret" and i[1] is w.ep_gens[0] and j[0] == "ret", "clear_generator_registrations", "a clear forgets programmatic generators; entry points come back; the name is free again",
+        "after clear_generator_registrations the programmatic generator any->mine %s (documented: not registered), the entry-point generator any->dot %s, registering any->mine again %s" % (show(h), show(i), show(j)), witness="register_generator('any','mine'); clear_generator_registrations(); generator_description('any','mine')")
+    return inst, out
